@@ -6,6 +6,8 @@ let z = z_of_hex
 let h = hex_of_z
 let okflag v ok = if ok then h v else h v ^ " !ok"
 let opt = function None -> "none" | Some v -> h v
+let fuel = nat_of_int 1000
+let fopt = function None -> "out-of-fuel" | Some v -> h v
 
 let eval = function
   | [ "f64.new"; a ] -> okflag (F64.f64_new (z a)) (F64.f64_new_ok (z a))
@@ -24,6 +26,29 @@ let eval = function
   | [ "f64.try_from_u64"; a ] -> opt (F64.f64_try_from_u64 (z a))
   | [ "f64.try_from_u128"; a ] -> opt (F64.f64_try_from_u128 (z a))
   | [ "f64.try_from_bytes"; a ] -> opt (F64.f64_try_from_bytes (bytes_of_hex a))
+  | [ "f64.exp_vartime"; a; b ] -> fopt (F64.f64_exp_vartime fuel (z a) (z b))
+  | [ "f62.new"; a ] -> okflag (F62.f62_new (z a)) (F62.f62_new_ok (z a))
+  | [ "f62.as_int"; a ] -> okflag (F62.f62_as_int (z a)) (F62.f62_as_int_ok (z a))
+  | [ "f62.add"; a; b ] -> okflag (F62.f62_add (z a) (z b)) (F62.f62_add_ok (z a) (z b))
+  | [ "f62.sub"; a; b ] -> okflag (F62.f62_sub (z a) (z b)) (F62.f62_sub_ok (z a) (z b))
+  | [ "f62.mul"; a; b ] -> okflag (F62.f62_mul (z a) (z b)) (F62.f62_mul_ok (z a) (z b))
+  | [ "f62.neg"; a ] -> okflag (F62.f62_neg (z a)) (F62.f62_neg_ok (z a))
+  | [ "f62.double"; a ] -> okflag (F62.f62_double (z a)) (F62.f62_double_ok (z a))
+  | [ "f62.exp"; a; b ] -> h (F62.f62_exp (z a) (z b))
+  | [ "f62.inv"; a ] -> fopt (F62.f62_inv fuel (z a))
+  | [ "f62.div"; a; b ] -> fopt (F62.f62_div fuel (z a) (z b))
+  | [ "f62.eq"; a; b ] -> if F62.f62_eq (z a) (z b) then "1" else "0"
+  | [ "f62.try_from_u64"; a ] -> opt (F62.f62_try_from_u64 (z a))
+  | [ "f62.try_from_u128"; a ] -> opt (F62.f62_try_from_u128 (z a))
+  | [ "f128.new"; a ] -> h (F128.f128_new (z a))
+  | [ "f128.add"; a; b ] -> okflag (F128.f128_add (z a) (z b)) (F128.f128_add_ok (z a) (z b))
+  | [ "f128.sub"; a; b ] -> okflag (F128.f128_sub (z a) (z b)) (F128.f128_sub_ok (z a) (z b))
+  | [ "f128.mul"; a; b ] -> okflag (F128.f128_mul (z a) (z b)) (F128.f128_mul_ok (z a) (z b))
+  | [ "f128.neg"; a ] -> okflag (F128.f128_neg (z a)) (F128.f128_neg_ok (z a))
+  | [ "f128.exp"; a; b ] -> fopt (F128.f128_exp fuel (z a) (z b))
+  | [ "f128.inv"; a ] -> fopt (F128.f128_inv fuel (z a))
+  | [ "f128.div"; a; b ] -> fopt (F128.f128_div fuel (z a) (z b))
+  | [ "f128.try_from_u128"; a ] -> opt (F128.f128_try_from_u128 (z a))
   | op :: _ -> "driver-error:unknown-op:" ^ op
   | [] -> "driver-error:empty"
 
